@@ -1391,21 +1391,48 @@ impl Unparser<'_> {
                         let mut exists_select: SelectBuilder = SelectBuilder::default();
                         from.relation(right_relation);
                         exists_select.push_from(from);
-                        if let Some(filter) = &join.filter {
-                            exists_select.selection(Some(self.expr_to_sql(filter)?));
+                        // A null-aware anti join is the plan of
+                        // `left NOT IN (SELECT right ...)`. `NOT EXISTS` with an
+                        // equality would keep the rows that `NOT IN` removes when
+                        // a key is NULL, so it is written back as `NOT IN`.
+                        let not_in_keys = if join.null_aware {
+                            match (join.join_type, join.on.as_slice(), &join.filter) {
+                                (JoinType::LeftAnti, [(left, right)], None) => {
+                                    Some((left, right))
+                                }
+                                _ => {
+                                    return not_impl_err!(
+                                        "Unsupported null-aware join: {join:?}"
+                                    );
+                                }
+                            }
+                        } else {
+                            None
+                        };
+                        if let Some((_, right)) = not_in_keys {
+                            exists_select.projection(vec![ast::SelectItem::UnnamedExpr(
+                                self.expr_to_sql(right)?,
+                            )]);
+                        } else {
+                            if let Some(filter) = &join.filter {
+                                exists_select.selection(Some(self.expr_to_sql(filter)?));
+                            }
+                            for (left, right) in &join.on {
+                                exists_select.selection(Some(self.expr_to_sql(
+                                    &Self::join_key_condition(
+                                        left,
+                                        right,
+                                        join.null_equality,
+                                    ),
+                                )?));
+                            }
+                            exists_select.projection(vec![ast::SelectItem::UnnamedExpr(
+                                ast::Expr::value(ast::Value::Number(
+                                    "1".to_string(),
+                                    false,
+                                )),
+                            )]);
                         }
-                        for (left, right) in &join.on {
-                            exists_select.selection(Some(self.expr_to_sql(
-                                &Self::join_key_condition(
-                                    left,
-                                    right,
-                                    join.null_equality,
-                                ),
-                            )?));
-                        }
-                        exists_select.projection(vec![ast::SelectItem::UnnamedExpr(
-                            ast::Expr::value(ast::Value::Number("1".to_string(), false)),
-                        )]);
                         query_builder.body(Box::new(SetExpr::Select(Box::new(
                             exists_select.build()?,
                         ))));
@@ -1418,9 +1445,16 @@ impl Unparser<'_> {
                             JoinType::LeftAnti | JoinType::RightAnti => true,
                             _ => unreachable!(),
                         };
-                        let exists_expr = ast::Expr::Exists {
-                            subquery: Box::new(query_builder.build()?),
-                            negated,
+                        let exists_expr = match not_in_keys {
+                            Some((left, _)) => ast::Expr::InSubquery {
+                                expr: Box::new(self.expr_to_sql(left)?),
+                                subquery: Box::new(query_builder.build()?),
+                                negated: true,
+                            },
+                            None => ast::Expr::Exists {
+                                subquery: Box::new(query_builder.build()?),
+                                negated,
+                            },
                         };
 
                         match join.join_type {
